@@ -4,6 +4,16 @@
     [exact]; proofs are in theories/SpanFacts.v. *)
 From Tephra Require Import Span SpanFacts MetricsSpec MetricsFacts.
 
+(** [Span::enclosing], through which every span of the library is built, orders its two arguments by byte itself *)
+Theorem C17_enclosing_orders_its_arguments :
+  forall S, Chain S -> forall a b, S a -> S b ->
+  let r := enclosing a b in
+  byte (sstart r) <= byte (send r)
+  /\ ((sstart r = a /\ send r = b) \/ (sstart r = b /\ send r = a))
+  /\ enclosing b a = r.
+Proof. exact enclosing_spec. Qed.
+Print Assumptions C17_enclosing_orders_its_arguments.
+
 Theorem C17_enclose :
   forall S, Chain S -> forall a0 a1 b0 b1, S a0 -> S a1 -> S b0 -> S b1 ->
   byte a0 <= byte a1 -> byte b0 <= byte b1 ->
